@@ -40,14 +40,14 @@ def cases(draw, name, tier):
     case = draw(base_case(name, max_len=5 if tier == "quick" else 7, max_src=3))
     if name != "iter_sentinel":
         for s in case["srcs"]:
-            s["fl"] = draw(st.sampled_from(["agen", "aclass", "iter", "seq"]))
+            s["fl"] = draw(st.sampled_from(["agen", "aclass", "iter", "seq", "aeager"]))
             s["cret"] = draw(st.sampled_from([None, None, True]))
     else:
         case["srcs"][0]["fl"] = draw(st.sampled_from(["def", "async", "partial", "obj"]))
     if name == "chain_from_iterable":
         case["params"]["outer"]["fl"] = draw(st.sampled_from(["agen", "aclass", "iter", "seq"]))
     for spec in case["fns"].values():
-        spec["fl"] = draw(st.sampled_from(["def", "async", "partial", "obj", "objaw"]))
+        spec["fl"] = draw(st.sampled_from(["def", "async", "partial", "obj", "objaw", "falsyobj"]))
     if tier == "quick":
         case["exc"] = draw(st.lists(st.sampled_from(EXC_NAMES), min_size=2, max_size=2, unique=True))
     else:
